@@ -33,7 +33,9 @@ CONSTANTS
     Leaves,     \* sequence of leaf node records
     BetaTab,    \* sequence of [name |-> code points, free |-> BOOLEAN, vals |-> <<value per parameter point>>]
     VarTab,     \* sequence of [name |-> code points, vals |-> <<value per row>>]
+    DrawTab,    \* sequence of [name |-> code points, type |-> string, vals |-> <<per observation: <<value per draw>> >>]
     NRows, NPoints,
+    NDraws,     \* number of draws (1 when the formulas have no draw variable)
     UnOps, BinOps, NaryOps,   \* operator alphabets (sets of class names)
     Exponents,  \* exponents offered to PowerConstant (rationals)
     KeySets,    \* sequences of integers offered as Elem keys / alternative ids / BelongsTo sets
@@ -55,7 +57,13 @@ Node(op, kids, num, name, keys) ==
 Un(op, a)      == Node(op, <<a>>, Zero, 0, << >>)
 Bin(op, a, b)  == Node(op, <<a, b>>, Zero, 0, << >>)
 
-Rows   == 1..NRows
+\* A "row" is a pair (observation, draw), flattened: formulas with draw variables are evaluated for every
+\* draw of every observation; the Monte-Carlo operator at the root averages over the draws of an observation.
+Rows   == 1..(NRows * NDraws)
+Obs    == 1..NRows
+ObsOf(r)  == ((r - 1) \div NDraws) + 1
+DrawOf(r) == ((r - 1) % NDraws) + 1
+RowOf(o, d) == (o - 1) * NDraws + d
 Points == 1..NPoints
 NL     == Len(Leaves)
 NOps(ns) == Len(ns) - NL
@@ -139,7 +147,8 @@ Val(ns, i, r, p) ==
   IN
   CASE n.op = "Numeric"  -> n.num
     [] n.op = "Beta"     -> BetaTab[n.name].vals[p]
-    [] n.op = "Variable" -> VarTab[n.name].vals[r]
+    [] n.op = "Variable" -> VarTab[n.name].vals[ObsOf(r)]
+    [] n.op = "bioDraws" -> DrawTab[n.name].vals[ObsOf(r)][DrawOf(r)]   \* the r-th draw of ITS OWN series
     [] OTHER             -> OpVal(n, V)
 
 (***************************************************************************)
@@ -263,7 +272,7 @@ Jet(ns, i, r, p) ==
       raw ==
         CASE n.op = "Beta" ->
                IF BetaTab[n.name].free THEN JParam(v, FreeRank(n.name) + 1) ELSE JConst(v)
-          [] n.op \in {"Numeric", "Variable"} \cup Discrete -> JConst(v)
+          [] n.op \in {"Numeric", "Variable", "bioDraws"} \cup Discrete -> JConst(v)
           [] n.op = "Plus"  -> JAdd(J(1), J(2))
           [] n.op = "Minus" -> JSub(J(1), J(2))
           [] n.op = "Times" -> JMul(J(1), J(2))
@@ -312,32 +321,40 @@ PostOrder(ns, root) == PostOrderFrom(ns, root, << >>)
 OccFree(ns, roots)  == {b \in FreeIdx  : \E rt \in roots : \E i \in Reach(ns, rt) : ns[i].op = "Beta" /\ ns[i].name = b}
 OccFixed(ns, roots) == {b \in FixedIdx : \E rt \in roots : \E i \in Reach(ns, rt) : ns[i].op = "Beta" /\ ns[i].name = b}
 NamesOf(S) == {BetaTab[b].name : b \in S}
+OccDraws(ns, roots) == {dv \in 1..Len(DrawTab) : \E rt \in roots : \E i \in Reach(ns, rt) : ns[i].op = "bioDraws" /\ ns[i].name = dv}
+DrawRankIn(dv, S) == NM!Rank(DrawTab[dv].name, {DrawTab[w].name : w \in S})
+DrawAtRank(k, S) == CHOOSE dv \in S : DrawRankIn(dv, S) = k
 RankIn(b, S) == NM!Rank(BetaTab[b].name, NamesOf(S))       \* 0-based rank of b's name inside S
 AtRankIn(k, S) == CHOOSE b \in S : RankIn(b, S) = k
 
 \* elementary index: position in the concatenation free betas, fixed betas, (random variables,
 \* draws: none here), database columns -- each group in name order except columns (table order)
-SigLine(ns, i, oF, oX) ==
+SigLine(ns, i, oF, oX, oD) ==
     LET n == ns[i] IN
     [id |-> i, op |-> n.op, kids |-> n.kids, num |-> n.num, keys |-> n.keys,
      elem |-> IF n.op = "Beta"
               THEN (IF BetaTab[n.name].free THEN RankIn(n.name, oF) ELSE Cardinality(oF) + RankIn(n.name, oX))
-              ELSE IF n.op = "Variable" THEN Cardinality(oF) + Cardinality(oX) + (n.name - 1) ELSE -1,
+              ELSE IF n.op = "bioDraws" THEN Cardinality(oF) + Cardinality(oX) + DrawRankIn(n.name, oD)
+              ELSE IF n.op = "Variable" THEN Cardinality(oF) + Cardinality(oX) + Cardinality(oD) + (n.name - 1) ELSE -1,
      kind |-> IF n.op = "Beta" THEN (IF BetaTab[n.name].free THEN RankIn(n.name, oF) ELSE RankIn(n.name, oX))
+              ELSE IF n.op = "bioDraws" THEN DrawRankIn(n.name, oD)
               ELSE IF n.op = "Variable" THEN n.name - 1 ELSE -1,
      free |-> n.op = "Beta" /\ BetaTab[n.name].free]
 Sig(ns, root) ==
     LET po == PostOrder(ns, root)
         oF == OccFree(ns, {root})
         oX == OccFixed(ns, {root})
-    IN  [q \in 1..Len(po) |-> SigLine(ns, po[q], oF, oX)]
+        oD == OccDraws(ns, {root})
+    IN  [q \in 1..Len(po) |-> SigLine(ns, po[q], oF, oX, oD)]
 
 Tables(ns, roots, p, r) ==
     LET oF == OccFree(ns, roots)
         oX == OccFixed(ns, roots)
     IN  [free  |-> [k \in 1..Cardinality(oF) |-> BetaTab[AtRankIn(k - 1, oF)].vals[p]],
          fixed |-> [k \in 1..Cardinality(oX) |-> BetaTab[AtRankIn(k - 1, oX)].vals[p]],
-         row   |-> [x \in 1..Len(VarTab) |-> VarTab[x].vals[r]]]
+         draws |-> LET oD == OccDraws(ns, roots) IN
+                   [k \in 1..Cardinality(oD) |-> DrawTab[DrawAtRank(k - 1, oD)].vals[ObsOf(r)][DrawOf(r)]],
+         row   |-> [x \in 1..Len(VarTab) |-> VarTab[x].vals[ObsOf(r)]]]
 
 \* Evaluate signature lines, keeping an id -> line table; leaves are read BY INDEX from the tables.
 LineNode(l, pos) ==   \* pos: id -> position among the lines
@@ -352,6 +369,7 @@ EvalLine(ls, q, tab) ==
   CASE n.op = "Numeric"  -> n.num
     [] n.op = "Beta"     -> IF n.free THEN tab.free[n.kind + 1] ELSE tab.fixed[n.kind + 1]
     [] n.op = "Variable" -> tab.row[n.kind + 1]
+    [] n.op = "bioDraws" -> tab.draws[n.kind + 1]
     [] OTHER             -> OpVal(n, V)
 
 \* well-formedness of a signature: one line per id, children defined before use
@@ -486,12 +504,21 @@ Emitted ==
     LET diff == Differentiable(nodes, Root) IN
     [ops |-> [i \in 1..NOps(nodes) |-> CompactNode(nodes[NL + i])],
      root |-> Root, nleaves |-> NL, diff |-> diff, freeocc |-> FreeOcc(nodes, Root),
-     vals |-> [r \in Rows |-> [p \in Points |-> Compact(Val(nodes, Root, r, p))]],
+     \* per OBSERVATION: the value, or with draws the Monte-Carlo mean over the draws of that observation
+     vals |-> [o \in Obs |-> [p \in Points |->
+                 IF NDraws = 1 THEN Compact(Val(nodes, Root, o, p))
+                 ELSE Compact(Div(SumSeq([d \in 1..NDraws |-> Val(nodes, Root, RowOf(o, d), p)]), I(NDraws)))]],
+     table |-> [o \in Obs |-> [d \in 1..NDraws |-> LET oD == OccDraws(nodes, {Root}) IN
+                 [k \in 1..Cardinality(oD) |-> Compact(DrawTab[DrawAtRank(k - 1, oD)].vals[o][d])]]],
      jets |-> IF diff
-              THEN [r \in Rows |-> [p \in Points |->
-                      LET j == Jet(nodes, Root, r, p) IN
-                      [g |-> [k \in KK |-> Compact(j.g[k])],
-                       h |-> [k \in KK |-> [l \in KK |-> Compact(j.h[<<k, l>>])]]]]]
+              THEN [o \in Obs |-> [p \in Points |->
+                      IF NDraws = 1
+                      THEN LET j == Jet(nodes, Root, o, p) IN
+                           [g |-> [k \in KK |-> Compact(j.g[k])],
+                            h |-> [k \in KK |-> [l \in KK |-> Compact(j.h[<<k, l>>])]]]
+                      ELSE [g |-> [k \in KK |-> Compact(SDiv(SSumSeq([d \in 1..NDraws |-> Jet(nodes, Root, RowOf(o, d), p).g[k]]), I(NDraws)))],
+                            h |-> [k \in KK |-> [l \in KK |->
+                                     Compact(SDiv(SSumSeq([d \in 1..NDraws |-> Jet(nodes, Root, RowOf(o, d), p).h[<<k, l>>]]), I(NDraws)))]]]]]
               ELSE << >>]
 EmitInv == done => PrintT(ToJson(Emitted))
 =============================================================================
